@@ -232,6 +232,8 @@ class SimWorld(object):
         for mod in (circus.watcher, circus.arbiter):
             self._patch(mod, 'os', os_proxy)
         self._patch(circus.arbiter, 'socket', sock_proxy)
+        self._patch(circus.controller, 'os', _Proxy(
+            _real_os, {'chown': lambda *a, **kw: None}))
         self._patch(circus.watcher, 'randint', lambda a, b: a)
         self._patch(circus.arbiter, 'Controller', SimController)
 
@@ -249,8 +251,9 @@ class SimWorld(object):
         else:
             ws = [w if isinstance(w, circus.watcher.Watcher)
                   else circus.watcher.Watcher(**w) for w in watchers]
+            endpoint = opts.pop('endpoint', 'tcp://127.0.0.1:1')
             self.arbiter = circus.arbiter.Arbiter(
-                ws, 'tcp://127.0.0.1:1', 'tcp://127.0.0.1:2',
+                ws, endpoint, 'tcp://127.0.0.1:2',
                 context=self.context, loop=self.ioloop, **opts)
         self.ctrl = self.arbiter.ctrl
         self.start_future = None
